@@ -194,4 +194,70 @@ def fileHyps (f : File) : Bool :=
 def fileHyps32 (f : File) : Bool :=
   fileStrsValid f && fileNoNegZero f && fileMB32Valid f && fileModsDistinct f && fileCallsDistinct f
 
+/-! ## a sample source text (Props.C09 section AcceptedFileTexts; served to the harness by the
+driver op `C09.filesample`, which ties both texts to the real parser and formatter) -/
+
+/-- the bytes of ASCII strings, concatenated (short pieces: the kernel evaluates `String.toList`
+of a literal in time quadratic in its length) -/
+def asciiCat : List String → Bytes
+  | [] => []
+  | s :: r => (s.toList.map fun c => UInt8.ofNat c.toNat) ++ asciiCat r
+
+/-- a whole file in non-canonical spelling: an include; a pipeline BEFORE the filetype `json.gz` it
+uses, its three calls all out of dependency order (`C` needs `B` and `A`, `B` needs `A`), keyword
+modifiers `local volatile`, `1e3`, `007`, duplicate map keys; a `filetype` with blanks around the
+dot; a stage on the same line with `split using (`, the resources in source order `threads, memgb,
+volatile, threads, vmem_gb` (repeated key: the last wins; `memgb` is `mem_gb`; `007`, `1e0`,
+`0.50`); a struct AFTER the stage; the call; four comments, tabs, blank lines, no final newline -/
+def sampleFileText : Bytes := asciiCat [
+  "@include \"a.mro\"  # c\n\n\n",
+  "pipeline P(in int a \"h\", out map<int[]>[] r,",
+  "out json.gz,){ # c\n",
+  "  map call C(x = split B.o, * = self,) ",
+  "using (disabled = A.d,)\n",
+  " call local volatile B(y = [A.o, 1e3],) ",
+  "call A(z = {\"b\":self.a, \"a\":007, \"b\":null},)\n",
+  " return (r = C.o,) retain (C.o,) }\n",
+  "filetype  json . gz ;",
+  "stage S ( in int a \"\\u0041\" , out float , ",
+  "src py \"x.py  -v\" ,# c\n ) ",
+  "split using ( in int c , ) ",
+  "using ( threads = 007 , memgb = 1e0 , ",
+  "volatile = strict , threads=0.50, ",
+  "vmem_gb = 0.50,) retain ( a , )\n",
+  "\tstruct  T ( int a \"h\" ,",
+  "map<json.gz[ ]>[] b , )\n",
+  " call P ( a = 1e3 , )"]
+
+/-- what the formatter makes of it: includes, filetypes, structs, callables (source order), call;
+the calls of `P` in dependency order `A, B, C` -/
+def sampleFileCanon : Bytes := asciiCat [
+  "@include \"a.mro\"\n\nfiletype json.gz;\n\nstruct T(\n",
+  "    int              a \"h\",\n    map<json.gz[]>[] b,\n)\n\n",
+  "pipeline P(\n    in  int          a        \"h\",\n",
+  "    out map<int[]>[] r,\n    out json.gz,\n)\n{\n    call A(\n",
+  "        z = {\n            \"a\": 7,\n            \"b\": null,\n",
+  "        },\n    )\n\n    call B(\n        y = [\n            A.o,\n",
+  "            1000,\n        ],\n    ) using (\n",
+  "        local    = true,\n        volatile = true,\n    )\n\n",
+  "    map call C(\n        x = split B.o,\n        * = self,\n",
+  "    ) using (\n        disabled = A.d,\n    )\n\n    return (\n",
+  "        r = C.o,\n    )\n\n    retain (\n        C.o,\n    )\n}\n\n",
+  "stage S(\n    in  int   a        \"A\",\n    out float,\n",
+  "    src py    \"x.py -v\",\n) split (\n    in  int   c,\n) using (\n",
+  "    mem_gb   = 1,\n    threads  = 0.5,\n    vmem_gb  = 0.5,\n",
+  "    volatile = strict,\n) retain (\n    a,\n)\n\ncall P(\n",
+  "    a = 1000,\n)\n"]
+
+/-- for the examples: the id of a callable and the callee names of its calls in order -/
+def callableCalls : Callable → Bytes × List Bytes
+  | .stage s => (s.id, [])
+  | .pipeline p => (p.id, p.body.calls.map (·.decId))
+
+/-- for the examples: `mem_gb` (in MB) of every stage of the file -/
+def fileMems (f : File) : List (Option Int) :=
+  f.callables.filterMap fun c => match c with
+    | .stage s => some (s.res.bind (·.mem))
+    | .pipeline _ => none
+
 end Martian.FormatFile
